@@ -150,7 +150,7 @@ func cmdCheck(args []string) int {
 		fmt.Fprintf(os.Stderr, "ERROR %v\n", err)
 		return 2
 	}
-	return conclude(id, tier, rep, b, start, true)
+	return conclude(id, tier, rep, b, start, os.Getenv("VERIF_NO_EVIDENCE") == "")
 }
 
 // Merged is the union of shard reports.
@@ -175,6 +175,7 @@ type Merged struct {
 	Samples     []any
 	Extra       map[string]int64
 	Rows        []any
+	AllRows     []any
 }
 
 func runShards(b *build, id, tier string) (*Merged, error) {
@@ -209,7 +210,7 @@ func runShards(b *build, id, tier string) (*Merged, error) {
 			defer wg.Done()
 			outf := filepath.Join(b.scratch, fmt.Sprintf("shard%d.json", i))
 			cmd := exec.Command(b.bin, "-prop", id, "-tier", tier, "-shard", strconv.Itoa(i), "-nshards", strconv.Itoa(n), "-budget", budget.String(), "-out", outf, "-claimdir", b.scratch)
-			cmd.Env = append(os.Environ(), "GOMAXPROCS=2")
+			cmd.Env = append(os.Environ(), "GOMAXPROCS=1")
 			msg, err := cmd.CombinedOutput()
 			if err != nil {
 				results[i] = res{err: fmt.Errorf("shard %d: %v\n%s", i, err, tail(string(msg), 4000)), i: i}
@@ -265,12 +266,28 @@ func runShards(b *build, id, tier string) (*Merged, error) {
 				}
 			}
 		}
-		if rs, ok := rep["rows"].([]any); ok && len(m.Rows) < 60 {
-			for _, s := range rs {
-				if len(m.Rows) < 60 {
-					m.Rows = append(m.Rows, s)
-				}
+		if rs, ok := rep["rows"].([]any); ok {
+			m.AllRows = append(m.AllRows, rs...)
+		}
+	}
+	// evidence keeps the heaviest and a few of the lightest scenarios
+	sort.SliceStable(m.AllRows, func(i, j int) bool {
+		return num(m.AllRows[i].(map[string]any)["executions"]) > num(m.AllRows[j].(map[string]any)["executions"])
+	})
+	for i, r := range m.AllRows {
+		if i < 40 || i >= len(m.AllRows)-10 {
+			m.Rows = append(m.Rows, r)
+		}
+	}
+	if os.Getenv("VERIF_TOP") != "" {
+		for i, r := range m.AllRows {
+			if i < 12 {
+				rm := r.(map[string]any)
+				fmt.Fprintf(os.Stderr, "TOP %v exec=%v completed=%v\n", rm["name"], rm["executions"], rm["completed"])
 			}
+		}
+		for _, n := range m.Incomplete {
+			fmt.Fprintf(os.Stderr, "INCOMPLETE %s\n", n)
 		}
 	}
 	return m, nil
